@@ -373,7 +373,7 @@ func TestC44(t *testing.T) {
 		cases := vt.TLCCases(t)
 		rnd.Shuffle(len(cases), func(i, j int) { cases[i], cases[j] = cases[j], cases[i] })
 		keep := vt.Pick(400, len(cases))
-		worldsPer := vt.Pick(2, 6)
+		worldsPer := vt.Pick(2, 3)
 		for i, c := range cases {
 			if i >= keep {
 				break
